@@ -1,4 +1,5 @@
 import GtirbVerif.Lemmas.AsmFinalize
+import GtirbVerif.Lemmas.AsmFresh
 import GtirbVerif.Spec.AsmCheck
 
 /-!
@@ -22,7 +23,12 @@ import GtirbVerif.Spec.AsmCheck
     indirect), followed by a Fallthrough edge to the fresh block exactly for calls and
     conditional jumps;
   - `label_block`: a label's block starts at the current end of the data, with a fallthrough edge
-    from the current block.
+    from the current block;
+  - `streaming_fresh`, `ret_proxy_fresh`, `indirect_proxy_fresh`: in every state the streamer
+    reaches, every proxy is numbered below the allocation counter and every edge to a proxy and
+    every undefined symbol leads to an allocated proxy; hence the proxy a return or an indirect
+    transfer gets is, at that moment, the target of no edge and the referent of no symbol - it is
+    fresh.
 -/
 namespace GtirbVerif.Props.C12
 open GtirbVerif.Asm
@@ -163,6 +169,57 @@ theorem label_block {st st' : AState} {s : ASect} {name : String} (h : stepLabel
     refine ⟨lb, by rw [hf, hn], ?_, ?_⟩
     · rw [← h]; simp [AState.setSect]
     · rw [← h]; simp [AState.setSect]
+
+/-! ### fresh proxies -/
+
+theorem precreate_fresh {t : Target} {evs : List Event} {st st' : AState} (h : Fresh st) (hr : precreate t st evs = .ok st') :
+    Fresh st' := by
+  induction evs generalizing st with
+  | nil => simp [precreate] at hr; rw [← hr]; exact h
+  | cons e es ih =>
+    cases e <;> simp only [precreate] at hr
+    case label n =>
+      split at hr
+      · cases hr
+      · refine ih (st := { st with locals := st.locals ++ [(n, 2 * st.locals.length + 1)] }) ?_ hr
+        exact h.congr rfl rfl rfl rfl
+    all_goals exact ih h hr
+
+/-- every state the streamer reaches, from the empty one, over any chunk list, keeps the proxy
+bookkeeping consistent -/
+theorem streaming_fresh {t : Target} {chunks : List (List Event)} {st st' : AState} (h : Fresh st)
+    (hr : assembleChunks t st chunks = .ok st') : Fresh st' := by
+  induction chunks generalizing st with
+  | nil => simp [assembleChunks] at hr; rw [← hr]; exact h
+  | cons c cs ih =>
+    simp only [assembleChunks] at hr
+    split at hr
+    · cases hr
+    · rename_i st1 h1
+      split at hr
+      · cases hr
+      · rename_i st2 h2
+        exact ih (run_fresh (precreate_fresh h h1) h2) hr
+
+/-- **a return goes to a fresh proxy**: the proxy of the Return edge was not allocated before, no
+earlier edge leads to it and no undefined symbol refers to it -/
+theorem ret_proxy_fresh {t : Target} {st st' : AState} {s : ASect} {size : Nat} {ind : Bool} {fx : List Fixup}
+    (hf : Fresh st) (h : stepInsn t st s size .ret ind fx = .ok st') :
+    ∃ st0, resolveFixups t st fx = .ok st0 ∧
+      st'.cfg = st0.cfg ++ [retEdge (insnSect s size fx).curBlock.id st0.next] ∧
+      st0.next ∉ st0.proxies ∧ (∀ e ∈ st0.cfg, e.dst ≠ .proxy st0.next) ∧ (∀ x ∈ st0.undefs, x.2 ≠ st0.next) := by
+  obtain ⟨st0, h0, hc, _⟩ := ret_edges h
+  have f0 := (resolveFixups_fresh hf h0).next_unused
+  exact ⟨st0, h0, hc, f0.1, f0.2.1, f0.2.2⟩
+
+/-- **an indirect transfer goes to a fresh proxy and is flagged indirect** -/
+theorem indirect_proxy_fresh {t : Target} {st st2 : AState} {fx : List Fixup} {tgt : Node} {direct : Bool}
+    (hf : Fresh st) (h : insnTarget t st true fx = .ok (st2, tgt, direct)) :
+    tgt = .proxy st.next ∧ direct = false ∧ st.next ∉ st.proxies ∧ (∀ e ∈ st.cfg, e.dst ≠ .proxy st.next) ∧
+      (∀ x ∈ st.undefs, x.2 ≠ st.next) := by
+  have a := (target_kinds h).1 rfl
+  have b := hf.next_unused
+  exact ⟨a.1, a.2.1, b.1, b.2.1, b.2.2⟩
 
 /-! ### the statements are not vacuous -/
 
